@@ -117,6 +117,9 @@ def run_workers(binp, prop, tier, seed, total, sweep_max, budget_s, tmp, race=Fa
     per = (total + NPROC - 1) // NPROC
     procs = []
     env0 = dict(os.environ)
+    # src/cmd (linked in for the binary's signal handling) looks for its settings directory when it is initialised
+    os.makedirs(os.path.join(tmp, "xdg", "process-compose"), exist_ok=True)
+    env0["XDG_CONFIG_HOME"] = os.path.join(tmp, "xdg")
     env0.update({"VERIF_PROP": prop, "VERIF_TIER": tier, "VERIF_SEED": str(seed), "VERIF_SWEEP_MAX": str(sweep_max),
                  "VERIF_BUDGET_S": str(budget_s), "VERIF_REPLAY_DIR": os.path.join(tmp, "replays"),
                  "VERIF_TMP": tmp, "VERIF_TREE": repo_rev(), "GORACE": "halt_on_error=0"})
@@ -366,7 +369,8 @@ def replay(prop, path, race):
     tmp = tempfile.mkdtemp(prefix="verif-replay-", dir=os.environ.get("VERIF_SCRATCH", "/var/tmp"))
     try:
         env = dict(os.environ)
-        env.update({"VERIF_REPLAY": os.path.abspath(path), "VERIF_TMP": tmp})
+        os.makedirs(os.path.join(tmp, "xdg", "process-compose"), exist_ok=True)
+        env.update({"VERIF_REPLAY": os.path.abspath(path), "VERIF_TMP": tmp, "XDG_CONFIG_HOME": os.path.join(tmp, "xdg")})
         p = subprocess.run([binp, "-test.run", "^TestReplay$", "-test.timeout", "0"], env=env, capture_output=True, text=True, cwd=tmp)
         out = p.stdout + p.stderr
         rp = json.load(open(path))
